@@ -9,7 +9,7 @@ from ..terms import A, C, F, V, L, NIL, term_size, pp as show_term
 
 ID = 'C02'
 LEVEL = 'model_checking'
-RULE = ('(l) every ordered pair of a 40-term universe with wide (3, 5, 8 arguments) and nested terms under every second recursion limit from the caller\'s depth + 6 to + 58: the unification raises RecursionError or has exactly the reference outcome; (r) one engine and the same three variables through ALL ordered pairs of a 33-term universe in 8 (thorough 32) rotations, each unification run to the end and closed - also the cyclic ones, whose outcome is not judged - nothing may be left behind and every result must be the reference result; (p) every ordered pair (t1,t2) of the term universe (quick: all terms of depth <=1 over variables X,Y,Z, '
+RULE = ('(l) every ordered pair of a 56-term universe with wide (3, 5, 8 arguments), nested, deep (6 levels) and flat-but-growing terms (values that become deep through the bindings the unification itself makes, under one and two wrappers) under every second recursion limit from the caller\'s depth + 6 to + 98: the unification raises RecursionError or has exactly the reference outcome; (r) one engine and the same three variables through ALL ordered pairs of a 33-term universe in 8 (thorough 32) rotations, each unification run to the end and closed - also the cyclic ones, whose outcome is not judged - nothing may be left behind and every result must be the reference result; (p) every ordered pair (t1,t2) of the term universe (quick: all terms of depth <=1 over variables X,Y,Z, '
         'atoms a,b,[], Python constants 1, 1000003, \'str\' (passed as equal but distinct objects) and None, 0, the empty string, -1, -2, 2**61-1 (pairs with colliding Python hashes) (at top level and as arguments of f/1, f/2), two-cell list-shaped terms whose cells are named . or f, wide compounds f/10 f/11 f/12 p/21 next to f1/0 f1/2 p2/1, functors f/0 a/0 (compound terms without arguments, distinct from the atoms) f/1 f/2 g/1 ./2; thorough: additionally all terms of depth <=2 with <=4 symbols under the 6 menu stacks) '
         'x every stack of earlier, still suspended unifications from the menu (quick: 6 stacks; thorough: the depth<=1 universe under every '
         'stack of <=2 equations out of 8 that is consistent and acyclic) x every point of the stack at which the unify generator is CREATED (it is always advanced under the whole stack). For each: number of yields, canonical '
@@ -310,6 +310,19 @@ def limit_universe():
     out = base + [F('f', t, u) for t in base for u in base] + [g2(t) for t in base] + [F('f', g2(X), g2(a)), F('f', g2(a), g2(Y)), F('f', X, g2(X))]
     out += [F('w', *([X, Y, a, b, X, Y, a, b][:n])) for n in (3, 5, 8)] + [F('w', *([a, a, a, b, b, b, a, b][:n])) for n in (3, 5, 8)]
     out += [L([a, b, X]), L([a, b, a]), L([X, Y], Z)]
+    # DEEP terms: looking up a nested value needs more stack than the control flow around it, so a
+    # RecursionError from the lookup arrives in frames that still have room to go on (and must not)
+    def gn(t, k):
+        for _ in range(k):
+            t = F('g', t)
+        return t
+    out += [gn(X, 6), gn(a, 6), gn(b, 6), F('w', gn(X, 6)), F('w', gn(a, 6)), F('f', X, gn(Y, 5)), F('f', gn(a, 5), gn(a, 5)), F('f', gn(a, 5), X),
+            F('w', X, Y, X), F('w', gn(Y, 4), gn(a, 4), gn(gn(a, 4), 4)),
+            # ... and terms that are FLAT when the call is made but whose values grow deep through the
+            # bindings the unification itself makes (X = g(g(Y)), Y = g(g(Z)), Z = g(g(a))): the deep
+            # lookup then happens in the middle of the argument lists, under a wrapper
+            F('w', F('f', X, Y, Z, X)), F('w', F('f', gn(Y, 2), gn(Z, 2), gn(a, 2), gn(a, 6))), F('w', F('f', gn(Y, 2), gn(Z, 2), gn(a, 2), X)),
+            F('w', F('f', gn(Y, 2), gn(Z, 2), gn(a, 2), gn(b, 6))), F('w', F('w', F('f', X, Y, Z, X))), F('w', F('w', F('f', gn(Y, 2), gn(Z, 2), gn(a, 2), X)))]
     return out
 
 
@@ -331,7 +344,7 @@ def run_limits(k, n, acc):
             except Cyclic:
                 continue
             exp = None if env is None else canon([X, Y, Z, t1, t2], env)
-            for lim in range(depth + 6, depth + 60, 2):
+            for lim in range(depth + 6, depth + 100, 2):
                 acc.n['evaluations'] += 1
                 acc.n['validated'] += 1
                 yp = impl.YP()
